@@ -247,6 +247,9 @@ def h_smt(ks, default, ops, kinds, q):
     v2, b2 = other._get(q)
     conds.append(v2 == val)
     conds.append(tuple(b2) == tuple(br))
+    # the re-opened tree is a SparseMerkleTree with the same default: clearing a key through it reads as the default
+    other.delete(q)
+    conds.append(other._get(q)[0] == default)
     return all(conds)
 
 
